@@ -66,6 +66,14 @@ def vocabulary():
     add("frozen-try-while", P(g.call(g.freeze(g.lam([], g.seq([g.decl("cc", L(2)),
                                                                 g.while_(g.binop(">", I("cc"), L(0)), g.seq([g.asg(T("cc"), g.binop("-", I("cc"), L(1))), P(I("cc"), I("yy"))])),
                                                                 g.try_(g.throw(I("yy")), "ee", g.binop("+", I("ee"), L(1)))]))), [])), [])
+    # a local declared in a try body is visible in the catch handler (no scope is opened), also when an
+    # outer variable of the same name exists
+    trybody = lambda nm: g.try_(g.seq([g.decl(nm, g.binop("+", I("aa"), I("aa"))), g.if_(g.binop(">", I(nm), L(5)), g.throw(I(nm))), I(nm)]),
+                                "ee", g.binop("+", I(nm), I("ee")))
+    add("frozen-try-local-shadow", g.decl("rr", g.freeze(lam1(trybody("yy")))), ["rr"])
+    add("frozen-try-local", g.decl("rr", g.freeze(lam1(trybody("tl")))), ["rr"])
+    add("call-try-local-1", P(g.call(I("rr"), [L(1)])), [])
+    add("call-try-local-4", P(g.call(I("rr"), [L(4)])), [])
     add("freeze-expr", P(g.freeze(g.binop("+", I("yy"), L(1)))), [])
     add("freeze-builtin-shadow", g.decl("rr", g.freeze(lam1(g.seq([g.decl("len", L(7)), g.binop("+", I("len"), I("aa"))])))), ["rr"])
     return V, 2
